@@ -402,7 +402,10 @@ class C09(HostProp):
             return op
         if how == "vf":
             return {"op": "vf", "path": path, "kind": kind, "append": append,
-                    "files": [fd_small(rng, kind, unique) for _ in range(rng.randint(1, 3))]}
+                    "files": [fd_small(rng, kind, unique) for _ in range(rng.randint(1, 3))],
+                    # API histories on one object: save refused without append, then retried with it; or a handle kept
+                    # from an earlier op and re-opened now
+                    "retry": (not append) and rng.chance(0.5), "handle": rng.chance(0.3)}
         # file_util from a freshly prepared one/two-file source image of either kind
         return {"op": "util", "src": "src.img", "to": kind, "dst": path, "append": append, "prepare": True,
                 "src_state": state_desc(rng, rng.choice(["tool_cas", "peer_cas", "tool_dsk", "peer_dsk"]), unique, n_files=rng.randint(1, 2))}
@@ -474,6 +477,14 @@ class C11(HostProp):
                 ops.append({"op": "setup", "path": inv[k], **state_desc(rng, "raw")})
                 inv["append"] = True
         ops.append(inv)
+        if "cas" in switches and org is not None and rng.chance(0.25):
+            # a second build of the same (position independent) source at another origin, appended to the same tape:
+            # the tape then holds both, and the newest entry loads at the new origin
+            again = dict(inv, lines=[(" ORG $%X\n" % ((org + 0x100) & 0xFFFF)) if l.startswith(" ORG ") else l for l in lines], append=True)
+            for k in ("bin", "dsk"):
+                again.pop(k, None)
+            if not any(" LDX #START" in l or "START," in l for l in lines):
+                ops.append(again)
         for k in switches:
             if k != "bin" and rng.chance(0.6):
                 ops.append({"op": "list", "path": inv[k]})
